@@ -31,6 +31,11 @@ pub struct StreamCase {
     pub consume: Vec<Consume>,
     pub policy: Policy,
     pub bufs: Vec<u32>,
+    /// bit rot inside ONE entry's compressed data (entry selector, offset selector, bit): that entry may fail to
+    /// read in both readers, but every other entry must still be delivered identically - the stream must not
+    /// lose its position because an entry's reader returned an error
+    #[serde(default)]
+    pub damage: Option<(u64, u64, u8)>,
 }
 
 pub struct Stream;
@@ -177,7 +182,8 @@ impl Scenario for Stream {
                 _ => Consume::All,
             })
             .collect();
-        let case = StreamCase { src, consume, policy: gen_policy_short(&mut r), bufs: gen_bufs(&mut r) };
+        let damage = if rs.chance(1, 6) { Some((r.next_u64(), r.next_u64(), r.below(8) as u8)) } else { None };
+        let case = StreamCase { src, consume, policy: gen_policy_short(&mut r), bufs: gen_bufs(&mut r), damage };
         serde_json::to_value(case).unwrap_or(Value::Null)
     }
     fn run(&self, case: &Value, ctx: &mut Ctx) -> Verdict {
@@ -206,6 +212,29 @@ impl Scenario for Stream {
                 (b.image, l.entries.iter().map(|e| e.enc.is_some() || e.dd != 0).collect())
             }
         };
+        // optional bit rot inside one entry's data extent
+        let mut img = img;
+        let mut damaged: Option<usize> = None;
+        if let (Some((es, os, bit)), false) = (c.damage, refused.iter().any(|x| *x)) {
+            if let Ok(p) = crate::indep::parse(&img) {
+                let mut ext: Vec<(u64, u64, u64)> = vec![]; // (header pos, data start, csize)
+                for (ci, cd) in p.centrals.iter().enumerate() {
+                    if let Some(Ok(l)) = p.locals.get(ci) {
+                        ext.push((l.pos, l.data_start, cd.csize));
+                    }
+                }
+                ext.sort();
+                if ext.len() == p.centrals.len() && !ext.is_empty() {
+                    let k = (es % ext.len() as u64) as usize;
+                    let (_, ds, cs) = ext[k];
+                    if cs > 0 && (ds + cs) as usize <= img.len() {
+                        img[(ds + os % cs) as usize] ^= 1 << bit;
+                        damaged = Some(k);
+                        *ctx.fired.entry("BitFlip:entry-data".into()).or_insert(0) += 1;
+                    }
+                }
+            }
+        }
         // reference: the seekable reader, in local-header (= stream) order
         let mut ar = match ZipArchive::new(std::io::Cursor::new(img.clone())) {
             Ok(a) => a,
@@ -264,6 +293,11 @@ impl Scenario for Stream {
                         let (_hs, rm, rd, _um, _cm) = &refs[i];
                         if &m != rm {
                             return Err(viol("C10/metadata", format!("entry {i}: stream reports {m:?}, seekable reader {rm:?}")));
+                        }
+                        if damaged == Some(i) {
+                            // its data is damaged: whatever its reader returned, the NEXT entries are the point
+                            ctx.probe(if e.is_some() { "damaged_entry_read_error_then_moved_on" } else { "damaged_entry_no_error" });
+                            continue;
                         }
                         if let Some(e) = e {
                             return Err(viol("C10/read-error", format!("entry {i}: {e}")));
@@ -355,6 +389,9 @@ impl Scenario for Stream {
         }
         if !c.bufs.is_empty() {
             out.push(StreamCase { bufs: vec![], ..c.clone() });
+        }
+        if c.damage.is_some() {
+            out.push(StreamCase { damage: None, ..c.clone() });
         }
         if c.consume.iter().any(|x| *x != Consume::All) {
             out.push(StreamCase { consume: vec![Consume::All; 8], ..c.clone() });
